@@ -162,16 +162,23 @@ def ref_sensitivity(c, n):
     return sp, dif, counts, full
 
 
-def check_sens_transform(acc, desc, n):
+def check_sens_transform(acc, desc, n, repeat=False):
     import circuitgraph as cg
 
-    case = {"kind": "sens_transform", "desc": desc, "node": n}
+    case = {"kind": "sens_transform", "desc": desc, "node": n, "repeat": repeat}
     c = space.build(desc)
     sp, dif, counts, full = ref_sensitivity(c, n)
     if not sp:
         return None
     acc.transitions += 1
     try:
+        if repeat:
+            # a caller is entitled to edit a block the library handed out; later transforms must not see the edit
+            pc = cg.logic.popcount(len(sp))
+            for g in sorted(pc.nodes()):
+                if pc.type(g) in ("and", "or", "xor"):
+                    pc.set_type(g, {"and": "or", "or": "xor", "xor": "and"}[pc.type(g)])
+            cg.tx.sensitivity_transform(c, n)
         s = cg.tx.sensitivity_transform(c, n)
     except Exception as e:  # noqa: BLE001
         acc.violation("sens_transform", f"raises:{common.exc_name(e)}", case, repr(e))
@@ -311,6 +318,8 @@ def run_transforms(job, acc):
             if down and other:
                 nt |= bool(check_sensitization(acc, desc, n, [down[0], other[0]]))
             nt |= bool(check_sens_transform(acc, desc, n))
+            if (_idx // job["of"]) % 4 == 0:
+                check_sens_transform(acc, desc, n, repeat=True)
             if nt:
                 acc.nontrivial += 1
         acc.sample({"desc": desc})
@@ -398,7 +407,7 @@ def replay(case, job):
     if k == "sensitization":
         check_sensitization(acc, case["desc"], case["node"], case["endpoints"], repeat=case.get("repeat", False))
     elif k == "sens_transform":
-        check_sens_transform(acc, case["desc"], case["node"])
+        check_sens_transform(acc, case["desc"], case["node"], repeat=case.get("repeat", False))
     else:
         check_props(acc, case["desc"], case["node"])
     return acc.result()
